@@ -162,6 +162,25 @@ func c16Input(in []byte) (tree bool, err error) {
 	if ss != snapSS {
 		return e1 == nil, fmt.Errorf("string returned by StdLibCompatibleString changed after its argument's bytes were overwritten")
 	}
+	// the tree helpers' "input" is a value tree: what they return must not change when the
+	// caller later modifies that tree (overwrites elements, fills spare capacity, adds keys)
+	if e2 == nil {
+		arg := cloneTree(s2)
+		var out interface{}
+		switch x := arg.(type) {
+		case []interface{}:
+			out = rjson.StdLibCompatibleSlice(x)
+		case map[string]interface{}:
+			out = rjson.StdLibCompatibleMap(x)
+		}
+		if out != nil {
+			snapOut := cloneTree(out)
+			scrambleTree(arg)
+			if !ref.Equal(out, snapOut) {
+				return true, fmt.Errorf("tree returned by a StdLibCompatible helper changed after its argument tree was modified: now %.200s, was %.200s", fmt.Sprintf("%#v", out), fmt.Sprintf("%#v", snapOut))
+			}
+		}
+	}
 	return e1 == nil, nil
 }
 
